@@ -51,4 +51,15 @@ def applyDropMany (e : EP) (hs : List Nat) : EP × Res × List Ev :=
   let (e, evs) := settle (hs.foldl (fun e h => (appDropStream e h).1) e)
   (e, .unit, evs)
 
+/-- The stimulus `batch`: several application calls made back to back before the connection task
+    runs again (each is `opStep`, exactly as in a stimulus of its own), then the task and the open
+    futures run to quiescence once. Results in call order. In the fine-grained pair model this is the
+    calls, one action each, followed by the task's actions. -/
+def applyBatch (e : EP) (ops : List Op) : EP × List Res × List Ev :=
+  let acc := ops.foldl (fun (acc : EP × List Res × List Ev) op =>
+    let r := opStep acc.1 op
+    (r.1, acc.2.1 ++ [r.2.1], acc.2.2 ++ r.2.2)) (e, [], [])
+  let s := settle acc.1
+  (s.1, acc.2.1, acc.2.2 ++ s.2)
+
 end Penguin.Mux
